@@ -75,6 +75,8 @@ DESC = {
                 "a non-tp limit with a negative bound on a component that is checked, then limits()/save()/the caller's dict inspected after a solve"),
  "C18-agent3": ("C18", "time step without phases uses 3600/mult (the progress-bar multiplier) instead of 3.6",
                 "no phases and a probed capacity >= 100 Ah"),
+ "C20-agent4": ("C20", "temperature factor moved into a helper; plane_res forgets to forward tcr",
+                "plane_res with a non-default tcr at a temperature other than 20 degrees"),
 }
 
 res = {}
